@@ -73,4 +73,10 @@ var registry = []propCfg{
 		Parts: []partCfg{{Test: "TestC15", Quick: 20000, Thorough: 150000}},
 		Assum: []string{"with a coding underneath only a non-failing writer is used: the statement restricts the failure clause to the uncoded case", "an error that is not a write failure (e.g. a value the codec cannot marshal) is outside the statement"},
 	},
+	{
+		ID: "C16", Level: "exploration",
+		Rule:  "rapid draws a provider (sync.Pool, bounded cache of 0, 1, 4) and a history of 1-12 requests; each writes a generated value (int64/uint64 with extremes and >2^53, finite float64, bool, unicode / XML-legal strings incl. non-BMP, nested struct, []string, []int64, pointer fields, interface{} holding a 64-bit integer and map[string]string for JSON) with the JSON or XML entity writer selected by Accept (both pretty settings), then feeds the bytes back as a request body with Content-Type spelled T, 'T; charset=utf-8', 'T ;charset=UTF-8' or absent with DefaultRequestContentType(T), optionally gzip (1-3 members) or deflate encoded with the matching Content-Encoding, and reads it with ReadEntity in an echo route. 40% of the bodies are damaged: truncated inside the header / stream / trailer, one bit flipped, garbage, or a cut document. Oracle: a well-formed body, wherever it sits in the history, reads back equal (64-bit integers exactly, interface integers as the same number, empty == nil slices); a damaged one never panics, must return an error when the header is cut or the body is garbage, and otherwise either returns an error or the original value; after every request the ledger provider holds nothing and saw no double/unknown release, no hand-out of a held object, no use after release. Non-trivial: a well-formed compressed body directly after a broken one, or a value with a >2^53 integer or non-BMP string. Distinct: FNV-64 of the case JSON.",
+		Parts: []partCfg{{Test: "TestC16", Quick: 4000, Thorough: 40000}},
+		Assum: []string{"values are restricted to the codecs' common domain (finite floats, valid UTF-8, XML-legal characters, no interface/map fields under XML)", "damage that leaves the entity's own bytes intact (cut checksum, don't-care header bits) may go unnoticed: the statement cannot be decided there", "failures matching the signature of open finding D15 are counted as excluded"},
+	},
 }
